@@ -274,9 +274,21 @@ Definition reset_parent (s : st) (k : positive) : st := upd_info s k (with_paren
 Definition stored_children (s : st) (nm : positive) : list positive :=
   match aget nm (s_hn s) with Some i => hchildren (i_members i) | None => [] end.
 
-Definition update_parent (s : st) (o : hobj) : st * list positive :=
+(* releaseChild (fix D9): only a member whose Parent points to [parent] is released;
+   before the repair every listed member was reset *)
+Definition release_child (fx : nat) (parent : positive) (s : st) (c : positive) : st :=
+  if Nat.ltb 1 fx then
+    match aget c (s_hn s) with
+    | Some i => match i_parent i with
+                | Some p => if Pos.eqb p parent then reset_parent s c else s
+                | None => s end
+    | None => s
+    end
+  else reset_parent s c.
+
+Definition update_parent (fx : nat) (s : st) (o : hobj) : st * list positive :=
   let removed := pdiff (stored_children s (o_name o)) (hchildren (o_members o)) in
-  (fold_left reset_parent removed s, removed).
+  (fold_left (release_child fx (o_name o)) removed s, removed).
 
 Definition claimers (hn : list (positive * info)) (c exclude : positive) : list positive :=
   map fst (filter (fun ki => negb (Pos.eqb (fst ki) exclude) && claims (i_members (snd ki)) c) hn).
@@ -284,23 +296,27 @@ Definition claimers (hn : list (positive * info)) (c exclude : positive) : list 
 (* The code under test carries three repairs (commits "fix:" in /repo, see
    docs/notes/C14.md): D1 failedRebuilds / refreshReady, D3 deleteHyperNode
    drops the deleted name from every Children set, D4 a placeholder entry is
-   not "known".  [fx = true] is the code as it is now, [fx = false] the code
-   before the repairs (kept for the _refuted witnesses). *)
-Definition mark_failed (fx : bool) (s : st) (k : positive) : st :=
-  set_ready (if fx then set_failed s (pins k (s_failed s)) else s) false.
-Definition unfail (fx : bool) (s : st) (k : positive) : st :=
-  if fx then set_failed s (pdel k (s_failed s)) else s.
+   not "known"; and round 3: D6 an update revives an entry whose deletion failed,
+   D9 only adopted members are released.  [fx] is the repair level: 0 = the code
+   before any repair, 1 = D1+D3+D4, 2 = the code as it is now (kept for the
+   _refuted witnesses). *)
+Definition fx1 (fx : nat) : bool := Nat.ltb 0 fx.
+Definition fx2 (fx : nat) : bool := Nat.ltb 1 fx.
+Definition mark_failed (fx : nat) (s : st) (k : positive) : st :=
+  set_ready (if fx1 fx then set_failed s (pins k (s_failed s)) else s) false.
+Definition unfail (fx : nat) (s : st) (k : positive) : st :=
+  if fx1 fx then set_failed s (pdel k (s_failed s)) else s.
 
 (* rebuild a list of names, stopping at the first error *)
-Definition rebuild_all (fx : bool) (e : env) (s : st) (l : list positive) : st * bool :=
+Definition rebuild_all (fx : nat) (e : env) (s : st) (l : list positive) : st * bool :=
   fold_left (fun (acc : st * bool) k => let '(s0, e0) := acc in
                if (e0 : bool) then acc else
                let '(s1, e1) := rebuild_cache e s0 k in
                if (e1 : bool) then (mark_failed fx s1 k, true) else (unfail fx s1 k, false)) l (s, false).
 
 (* refreshReady: retry the failed rebuilds (ascending names); ready iff none is left *)
-Definition refresh_ready (fx : bool) (e : env) (s : st) : st :=
-  if fx then
+Definition refresh_ready (fx : nat) (e : env) (s : st) : st :=
+  if fx1 fx then
     let '(s', stop) :=
       fold_left (fun (acc : st * bool) k => let '(s0, e0) := acc in
                    if (e0 : bool) then acc else
@@ -319,19 +335,21 @@ Definition known (s : st) (nm : positive) : bool :=
   | None => false
   end.
 
-Definition upd_gen (fx : bool) (e : env) (s : st) (o : hobj) : st * bool :=
+Definition upd_gen (fx : nat) (e : env) (s : st) (o : hobj) : st * bool :=
   let nm := o_name o in
   let old := aget nm (s_hn s) in
   let exists_ := match old with Some _ => true | None => false end in
-  let kn := if fx then known s nm else exists_ in
+  let deleting := match old with Some i => i_deleting i | None => false end in
+  let kn := if fx1 fx then known s nm && negb (fx2 fx && deleting) else exists_ in
   let tierChanged := match old with Some i => if kn then negb (Z.eqb (i_tier i) (o_tier o)) else true | None => true end in
   let membersChanged := match old with Some i => if kn then negb (members_eqb (i_members i) (o_members o)) else true | None => true end in
   if negb (membersChanged || tierChanged) && kn && negb (has_sel (o_members o)) then (s, false)
   else
-    let '(s1, freed) := if membersChanged then update_parent s o else (s, []) in
+    let '(s1, freed) := if membersChanged then update_parent fx s o else (s, []) in
     let s2 := if negb kn || tierChanged then update_tier_set s1 o else s1 in
     let s3 := match aget nm (s_hn s2) with
-              | Some _ => upd_info s2 nm (with_obj (o_tier o) (o_members o))
+              | Some _ => upd_info s2 nm (fun i => let i' := with_obj (o_tier o) (o_members o) i in
+                                             if fx2 fx then with_deleting false i' else i')
               | None => set_hn s2 (aset nm (mkInfo (o_tier o) (o_members o) None [] false) (s_hn s2))
               end in
     if membersChanged || has_sel (o_members o) then
@@ -348,16 +366,16 @@ Definition upd_gen (fx : bool) (e : env) (s : st) (o : hobj) : st * bool :=
 Definition drop_child_everywhere (s : st) (nm : positive) : st :=
   set_hn s (map (fun ki => (fst ki, with_children (pdel nm (i_children (snd ki))) (snd ki))) (s_hn s)).
 
-Definition del_gen (fx : bool) (e : env) (s : st) (nm : positive) : st * bool :=
+Definition del_gen (fx : nat) (e : env) (s : st) (nm : positive) : st * bool :=
   let s1 := upd_info s nm (with_deleting true) in
   let '(s2, err) := rebuild_cache e s1 nm in
   if err then (mark_failed fx s2 nm, true) else
   let s3 := unfail fx s2 nm in
-  let s4 := fold_left reset_parent (stored_children s3 nm) s3 in
+  let s4 := fold_left (release_child fx nm) (stored_children s3 nm) s3 in
   let s5 := match aget nm (s_hn s4) with
             | None => s4
             | Some i => let s' := remove_from_tier (set_hn s4 (adel nm (s_hn s4))) nm (i_tier i) in
-                        if fx then drop_child_everywhere s' nm else s'
+                        if fx1 fx then drop_child_everywhere s' nm else s'
             end in
   (refresh_ready fx e s5, false).
 
@@ -374,7 +392,7 @@ Definition node_matches (e : env) (n : positive) (ms : list member) : bool :=
                     | _ => false
                     end) ms.
 
-Definition trigger_gen (fx : bool) (e : env) (s : st) (n : positive) : st * bool :=
+Definition trigger_gen (fx : nat) (e : env) (s : st) (n : positive) : st * bool :=
   let leaves := filter (fun ki => is_sel_leaf (i_members (snd ki))) (s_hn s) in
   fold_left (fun (acc : st * bool) ki =>
     let '(s0, e0) := acc in
@@ -389,7 +407,7 @@ Definition trigger_gen (fx : bool) (e : env) (s : st) (n : positive) : st * bool
 Inductive event :=
 | EUpd (o : hobj) | EDel (nm : positive) | ENodeAdd (n : positive) | ENodeDel (n : positive).
 
-Definition step_gen (fx : bool) (es : env * st) (ev : event) : env * st :=
+Definition step_gen (fx : nat) (es : env * st) (ev : event) : env * st :=
   let '(e, s) := es in
   match ev with
   | EUpd o => (e, fst (upd_gen fx e s o))
@@ -398,13 +416,15 @@ Definition step_gen (fx : bool) (es : env * st) (ev : event) : env * st :=
   | ENodeDel n => let e' := mkEnv (pdel n (e_nodes e)) (e_sel e) in (e', fst (trigger_gen fx e' s n))
   end.
 
-Definition upd := upd_gen true.
-Definition del := del_gen true.
-Definition trigger := trigger_gen true.
-Definition step := step_gen true.
+Definition upd := upd_gen 2.
+Definition del := del_gen 2.
+Definition trigger := trigger_gen 2.
+Definition step := step_gen 2.
 Definition run (e : env) (evs : list event) : env * st := fold_left step evs (e, init_st).
 (* the code before the repairs *)
-Definition run_prefix (e : env) (evs : list event) : env * st := fold_left (step_gen false) evs (e, init_st).
+Definition run_prefix (e : env) (evs : list event) : env * st := fold_left (step_gen 0) evs (e, init_st).
+(* the code after the round-2 repairs (D1, D3, D4) and before D6, D9 *)
+Definition run_round2 (e : env) (evs : list event) : env * st := fold_left (step_gen 1) evs (e, init_st).
 
 (* from scratch: a fresh view fed only the given objects, in the given order *)
 Definition scratch (e : env) (objs : list hobj) : st := snd (run e (map EUpd objs)).
